@@ -75,6 +75,37 @@ def workload(tier: str, seed: int) -> tuple[list[dict], list[dict], dict]:
                       "variant": f"padded:{pos}", "uuid_seed": f"{seed}-{g}-pad",
                       "rng_seed": f"{seed}-{g}-pad", "work_dir": wd, "counts": False})
     stats["padded_long_stream_presentations"] = npad
+    # process-history presentation: the job set is converted AFTER other conversions in the
+    # same interpreter - a twin of the definition over the same event names whose fork has one
+    # type twice (counts > 1: same follower types, other multiplicities) and an unrelated job
+    # set.  The answer may depend on the set of job graphs only, not on what the process
+    # converted before (pv_streams_to_puml_files converts several job names per run).
+    rngh = _r.Random(f"c03-history-{seed}")
+    nhist = 0
+    plain = [g for g, b in enumerate(groups)
+             if not b.get("counts") and b["stratum"] == "S1" and len(b["jobs"]) <= 40]
+    for g in plain:
+        b = groups[g]
+        if tier == "quick" and nhist >= 70:
+            break
+        twin = gen.counts_twin(b["src"], rngh)
+        prelude = []
+        if twin is not None:
+            tj = lcase.complete_jobs(twin, 2, 120)
+            if tj:
+                prelude.append({"name": b["name"] + "-twin",
+                                "jobs": [puml.job_to_json(j) for j in tj]})
+        if not prelude and nhist % 3:
+            continue        # fork-free definitions: every third gets an unrelated prelude only
+        o = groups[rngh.choice(plain)]
+        prelude.append({"name": o["name"] + "-other", "jobs": o["jobs"]})
+        rngh.shuffle(prelude)
+        nhist += 1
+        cases.append({"group": g, "name": b["name"], "jobs": b["jobs"],
+                      "variant": "after-conversions", "prelude": prelude,
+                      "uuid_seed": f"{seed}-{g}-hist", "rng_seed": f"{seed}-{g}-hist",
+                      "work_dir": wd, "counts": False})
+    stats["process_history_presentations"] = nhist
     return groups, cases, stats
 
 
@@ -221,6 +252,7 @@ def main(tier: str, seed: int) -> int:
                        "presentations": [{"variant": r["variant"], "hashseed": r.get("_hashseed"),
                                           "uuid_seed": r.get("uuid_seed"),
                                           "rng_seed": r.get("rng_seed"),
+                                          "prelude": cases[r["_idx"]].get("prelude"),
                                           "ok": r["learn_ok"], "exc": r.get("exc_type"),
                                           "nf_digest": core.digest(r.get("nf")) if r.get("nf")
                                           else None} for r in by_group[g]]}
@@ -250,7 +282,8 @@ def replay(path: str) -> int:
     cases = [{"group": 0, "name": b["name"], "jobs": b["jobs"], "variant": p["variant"],
               "uuid_seed": p.get("uuid_seed") or f"{seed}-{g}-{i}",
               "rng_seed": p.get("rng_seed") or f"{seed}-{g}-{i}",
-              "work_dir": core.work_dir(), "counts": b.get("counts", False)}
+              "work_dir": core.work_dir(), "counts": b.get("counts", False),
+              **({"prelude": p["prelude"]} if p.get("prelude") else {})}
              for i, p in enumerate(w["presentations"])]
     bad = False
     rs = []
